@@ -350,7 +350,7 @@ fn judge_table(printed: &Printed, img: &Image, stack: bool) -> Option<(String, S
 fn special_queries() -> Vec<(&'static str, String, String, Option<u16>)> {
     // (family, source, location token, address the assembler gave it; None = must be refused without panic)
     let mut v = Vec::new();
-    let names = ["b1", "o7", "B0", "x", "o", "b", "b2", "xg", "r8", "_1"];
+    let names = ["b1", "o7", "B0", "x", "o", "b", "b2", "xg", "r8", "_1", "2nd", "9"];
     let mut src = String::from(".orig x2fff\nnot r1, r1\n");
     for (i, n) in names.iter().enumerate() {
         src.push_str(&format!("{n} add r0, r0, #{}\n", i));
@@ -461,7 +461,7 @@ pub fn run(ctx: &Ctx) -> i32 {
         ctx,
         acc,
         Level { category: "model_checking", bfs: None },
-        "bounded-exhaustive enumeration: every ordered pair of 17 statement shapes (operand-less, operand-ful, every directive, multi-word, multi-byte strings, stack extension) in 3 arrangements (first statement at byte 0 / labelled with .break between / .orig in the middle), 4 origins (default, x0200, x7FFE crossing x8000, xFD00), a layout product (case, separators incl. commas, label colon, label on own line, trailing and full-line comments with multi-byte characters, indentation, .end); one debugger session per program queries `assembly` at EVERY address from origin-1 to origin+n+1 and `goto label`, `label+1`, `label-1`, `label+3` for every label; compared with the printer's statement spans and the reference symbol table; a second session in full (non-minimal) output adds a breakpoint at every statement address and one past the program and reads the source column of the `break list` table (same oracle); plus 23 single-query sessions on labels whose spelling the command language can also read as an integer or register (b1, o7, B0, x, o, b, b2, xg, r8, _1, each bare and with +1) and on a label after the 65535th word. non-trivial = sessions in which every query agreed",
+        "bounded-exhaustive enumeration: every ordered pair of 17 statement shapes (operand-less, operand-ful, every directive, multi-word, multi-byte strings, stack extension) in 3 arrangements (first statement at byte 0 / labelled with .break between / .orig in the middle), 4 origins (default, x0200, x7FFE crossing x8000, xFD00), a layout product (case, separators incl. commas, label colon, label on own line, trailing and full-line comments with multi-byte characters, indentation, .end); one debugger session per program queries `assembly` at EVERY address from origin-1 to origin+n+1 and `goto label`, `label+1`, `label-1`, `label+3` for every label; compared with the printer's statement spans and the reference symbol table; a second session in full (non-minimal) output adds a breakpoint at every statement address and one past the program and reads the source column of the `break list` table (same oracle); plus 27 single-query sessions on labels whose spelling the command language can also read as an integer or register (b1, o7, B0, x, o, b, b2, xg, r8, _1, 2nd, 9, each bare and with +1) and on a label after the 65535th word. non-trivial = sessions in which every query agreed",
         true,
         &["session-agreed", "breakpoint-table-rows-compared"],
         &["the printer records the exact byte span of each statement it emits", "minimal-mode debugger text is read through the tee hook"],
